@@ -527,6 +527,37 @@ impl Property for C08Prop {
                 );
             }
         }
+        // routes 3c: the operation under a prefix operator (`!` for bool results, `-` for numbers):
+        // rewriting `!(a < b)` to `a >= b` or `-(a - b)` to `b - a` is wrong for NaN / at the boundaries
+        if args.len() == 2 {
+            let (ty, la, lb) = match (&args[0], &args[1]) {
+                (Variable::Int(a), Variable::Int(b)) => ("int", lit_int(*a), lit_int(*b)),
+                (Variable::Float(a), Variable::Float(b)) => ("float", lit_float(*a), lit_float(*b)),
+                (Variable::Bool(a), Variable::Bool(b)) => ("bool", a.to_string(), b.to_string()),
+                _ => unreachable!(),
+            };
+            let (prefix, ret, wrapped) = match &expected {
+                Exp::Bool(r) => ("!", "bool", Exp::Bool(!r)),
+                Exp::Int(r) => ("-", "int", Exp::Int(wrap(-(*r as i128)))),
+                Exp::Float(r) => ("-", "float", Exp::Float(float_bits(-f64::from_bits(*r)))),
+                Exp::Err(k) => (if is_cmp(op) || ty == "bool" { "!" } else { "-" }, if is_cmp(op) || ty == "bool" { "bool" } else { ty }, Exp::Err(k)),
+            };
+            for (text, may_fail_at_parse) in [
+                (format!("f := (a: {ty}, b: {ty}) -> {ret} {{ return {prefix}(a {op} b); }}; f({la}, {lb})"), false),
+                (format!("f := (a: {ty}) -> {ret} {{ return {prefix}(a {op} {lb}); }}; f({la})"), true),
+                (format!("f := (b: {ty}) -> {ret} {{ return {prefix}({la} {op} b); }}; f({lb})"), true),
+                (format!("{prefix}({la} {op} {lb})"), true),
+            ] {
+                stats.eval();
+                let o = run::run_text(&text, false);
+                if !outcome_matches(&o, &wrapped, may_fail_at_parse) {
+                    return fail(
+                        format!("C08:{kind}:{op}:under-prefix"),
+                        format!("`{text}`: expected {}, got {}", wrapped.show(), o.short()),
+                    );
+                }
+            }
+        }
         // route 4: compound assignment (value yielded, content afterwards, unchanged on error)
         if let Some((program, _initial)) = &routes.compound {
             stats.eval();
